@@ -929,6 +929,10 @@ def _ensure_function_variant(
     key = (name, signature)
     if key in refreshing:
         return defs.get(name, {}).get(canonical)
+    if sum(1 for pending_name, _ in refreshing if pending_name == name) >= 8:
+        # a recursive call with an ever-growing argument type (``def f(a): return f([a])``)
+        # would otherwise specialise the helper until the interpreter's stack is exhausted
+        raise ValueError(f"helper '{name}' is specialised without bound (recursive call with a growing argument type)")
 
     refreshing.add(key)
     try:
